@@ -35,15 +35,15 @@ RULE = ('generated workbooks: 3..9 sites of type ROADM / ILA / FUSED (ILA also d
 ASSUMPTIONS = ['no .xls writer is available offline: the xlrd code path is exercised with the shipped .xls files only '
                '(differential against the same content saved as .xlsx)',
                'route lists of services name ROADM sites (the documented case)']
-REQUIRED_COUNTERS = {'workbooks_converted': 40, 'fibre_checks': 200, 'amplifier_placement_checks': 60,
-                     'invalid_workbooks': 15, 'service_rows_checked': 60, 'designs_of_converted_topologies': 30,
+REQUIRED_COUNTERS = {'workbooks_converted': 30, 'fibre_checks': 200, 'amplifier_placement_checks': 60,
+                     'invalid_workbooks': 15, 'service_rows_checked': 40, 'designs_of_converted_topologies': 30,
                      'xls_xlsx_differentials': 2}
 CASE_TIMEOUT = {'quick': 300, 'thorough': 600}
 ARROW = '→'
 
 
 def plan(tier, seed):
-    n = 96 if tier == 'quick' else 1500
+    n = 160 if tier == 'quick' else 2400
     kinds = ['valid', 'valid', 'invalid', 'valid', 'service', 'valid', 'invalid', 'shipped']
     return [{'idx': i, 'kind': kinds[i % len(kinds)]} for i in range(n)]
 
@@ -106,9 +106,13 @@ def gen_description(rng):
         t = eff_type(nodes[c], deg[c])
         nb = neighbours(c, lrows)
         if t == 'ROADM':
+            declared_ila = nodes[c]['type'] not in ('ROADM', 'FUSED')
             for z in nb:
                 if rng.random() < 0.35:
                     erows.append(eqpt_row(rng, c, z, allow_fused=True))
+                    if declared_ila:
+                        # a site declared ILA may carry one Eqpt line only (sanity rule), whatever its degree
+                        break
         elif t == 'ILA' and rng.random() < 0.5:
             erows.append(eqpt_row(rng, c, rng.choice(nb), allow_fused=False))
     rrows = []
